@@ -313,6 +313,8 @@ class Run(object):
             obj = VCtx(self, c, t, d.get("faulty", "-"))
         elif ty == "nonasync":
             obj = VNonAsync(self, c, t)
+        elif ty == "cleanup":
+            obj = VCleanup(self, c, t, d["var"])
         elif ty == "override":
             obj = VOverride(self.svars[d["var"]], d["val"])
             obj._vinit(self, c, t)
@@ -359,7 +361,6 @@ class Run(object):
                     assert isinstance(self, Holder)
                     return (yield from run._interp(t))
 
-            Holder.body.__name__ = "task%d" % t
             h = Holder()
             self.keep.append(h)
             return h.body
@@ -409,6 +410,21 @@ class Run(object):
                                 recvs.append(val)
                             elif o == "spawn":
                                 run.get_task(op["a"], t)
+                            elif o == "ival":
+                                # create a request and ask for its value at once: item.value() flushes its batch directly
+                                fid = fid_of(t, k, 30 + seg["ops"].index(op))
+                                if run.prog["kinds"][op["a"] - 1].get("impl") == "debug":
+                                    it = make_debug_item(run, op["a"], fid, t)
+                                else:
+                                    it = VItem(run, op["a"], fid, t)
+                                try:
+                                    val = it.value()
+                                except BaseException as e:
+                                    vid, uid = run.exc_ids(e)
+                                    run.emit("IVal", t=t, a=fid, v=V("x", vid), u=uid)
+                                    raise
+                                run.emit("IVal", t=t, a=fid, v=run.enc(val), u=0)
+                                recvs.append(val)
                             elif o == "dirty":
                                 d = run.prog["tasks"][op["a"] - 1]["dedup"]
                                 args, kwargs = run.spelling(d)
@@ -626,7 +642,8 @@ class VBatch(BatchBase):
     def flush(self):
         # mode "throw": the flush completes, then flush() itself raises (a failing flush as the scheduler sees it)
         BatchBase.flush(self)
-        if self.run.prog["kinds"][self.kind - 1].get("flush") == "throw":
+        by_sched = bool(self.run.in_sched_flush) and self.run.in_sched_flush[-1] == self.bid
+        if by_sched and self.run.prog["kinds"][self.kind - 1].get("flush") == "throw":
             raise self.run.new_err(31000 + self.kind)
 
     def _flush(self):
@@ -753,6 +770,23 @@ class VNonAsync(NonAsyncContext, _CtxMixin):
     def __exit__(self, ty, val, tb):
         self._run.emit("Exit", a=self._c, t=self._t)
         return NonAsyncContext.__exit__(self, ty, val, tb)
+
+
+class VCleanup(_CtxMixin):
+    """a plain (non-asynq) context manager whose cleanup calls asynq code synchronously, like a `finally:` block"""
+
+    def __init__(self, run, c, t, target):
+        self._vinit(run, c, t)
+        self._target = target
+
+    def __enter__(self):
+        self._run.emit("Enter", a=self._c, t=self._t)
+        return self
+
+    def __exit__(self, ty, val, tb):
+        self._run.emit("Exit", a=self._c, t=self._t)
+        self._run.sync_call(self._t, self._target)
+        return False
 
 
 class VOverride(_sv._AsyncScopedValueOverrideContext, _CtxMixin):
